@@ -490,7 +490,7 @@ def explore_all(ctx, quick, deep):
         ([('set', 'a', 0)], [[('get', 'a'), ('in', 'a')], [('set', 'a', 1)], [('del', 'a'), ('set', 'a', 2)]]),
     ]
     if keys_ok:
-        disk_scns.append(([('set', 'a', 0)], [[('keys',), ('set', 'b', 1)], [('del', 'a'), ('keys',)]]))
+        disk_scns.insert(1, ([('set', 'a', 0)], [[('keys',), ('set', 'b', 1)], [('del', 'a'), ('keys',)]]))
     for di, (pre, threads) in enumerate(disk_scns[:2] if quick else disk_scns):
         for pp, r in C.explore(lambda pp: C.run_db_schedule(entries, pre, threads, pp, ondisk=True), len(threads), depth,
                                (110 if quick else 500) * (3 if deep else 1), rng, 4 if quick else 20):
